@@ -462,6 +462,34 @@ def main_loop_step(out, eng, pr):
             key="limit-check-not-applied-to-the-instruction-stepped-to",
             what="after an instruction that moved the instruction pointer (JUMP), the thread continues only if the offset it steps to "
                  "is inside the code and below the per-opcode iteration limit")
+    gas_charged_for_executed_instruction(out, pr, paths, n, inv)
+
+
+def gas_charged_for_executed_instruction(out, pr, paths, n, inv):
+    """O9: when the executed opcode succeeds and the thread goes on, its gas grew by exactly the minimum cost of the
+    instruction that was executed (the one at the pointer before execution), wherever the opcode moved the pointer."""
+    from . import c17
+    ip = n["ip"]
+
+    def post(p):
+        ctx = p.ctx
+        ops = [e for e in ctx.events if e[0] == "op"]
+        if not ops or ops[0][1] != "ok" or p.kind != "cut":
+            return None
+        cell = ctx.vmcell
+        q = View(ctx).get(cell, "VM", "thread_queue")
+        if not (isinstance(q, Obj) and q.elems) or getattr(q, "popped", 0):
+            return None
+        g1 = View(ctx).get(q.elems[0], "VMThread", "gas_usage")
+        g1 = ctx.force(g1).e
+        return g1 == n["gas"] + c17.GAS_AT(z3.ZeroExt(32, ip))
+
+    def replay(p, model):
+        return native.scenario(out, "jump_gas", {})
+    verdict(out, pr, "O9.gas_charged_for_executed_instruction", paths, post, pre=inv + [z3.ULT(n["gas"], z3.BitVecVal(1 << 62, 64)),
+            z3.ULT(c17.GAS_AT(z3.ZeroExt(32, ip)), z3.BitVecVal(1 << 32, 64))], kinds=("cut",), replay=replay,
+            key="gas-not-charged-for-the-executed-instruction",
+            what="a successful instruction adds exactly its own minimum cost to the thread's gas, also when it moved the instruction pointer")
 
 
 def thread_sites(out, eng):
